@@ -68,6 +68,29 @@ def ev_tucker(case, viol):
         viol.append(('truncate-exceeds-tolerance ' + tag, {'case': case, 'err': nrm(Ht.asarray() - A), 'tol': t_abs}))
     if tuple(Ht.R) != tuple(k):
         viol.append(('truncate-rank ' + tag, {'case': case, 'R': list(Ht.R), 'k': list(k)}))
+    # a slowly decaying tail: three core slices of 0.6 tol each (any two may go: 0.85 tol; all three: 1.04 tol) --
+    # the tolerance bounds the ACCUMULATED error of everything that is cut
+    sh = tuple(case['sh'])
+    ax = int(np.argmax(sh))
+    osh = sh[:ax] + sh[ax + 1:]
+    if sh[ax] >= 4 and int(np.prod(osh)) >= 4 and t_abs > 1e-9 * max(1.0, nA) and t_abs < 0.1:
+        rng = np.random.RandomState(case['q'] + 7)
+        Qs = [np.linalg.qr(rng.randn(m, m))[0] for m in sh]
+        core = np.zeros(sh)
+        core[(0,) * len(sh)] = 1.0
+        for i in (1, 2, 3):
+            ix = list(np.unravel_index(i, osh))         # pairwise different positions in every unfolding along `ax`
+            ix.insert(ax, i)
+            core[tuple(ix)] = 0.6 * t_abs
+        B = tensor.apply_tprod(Qs, core)
+        HB = tensor.hosvd(B)
+        kb = tensor.find_truncation_rank(HB.X, t_abs)
+        n += 1
+        for nm, Tb in (('truncate', HB.truncate(kb)), ('compress', HB.compress(tol=t_abs, rtol=0.0))):
+            eb = nrm(Tb.asarray() - B)
+            if eb > t_abs * (1 + 1e-6) + 1e-13:
+                viol.append(('%s-exceeds-tolerance accumulated-tail %s' % (nm, tag),
+                             {'case': case, 'err': eb, 'tol': t_abs, 'rank': list(Tb.R)}))
     # Tucker tensor from the canonical terms
     if case['r'] == 0:
         T = tensor.TuckerTensor.zeros(tuple(case['sh']))
